@@ -47,7 +47,13 @@ Reduce12(t, c, csave, cf, lmax, top, fuel) ==
         ELSE Reduce12([d \in DOMAIN t |-> IF t[d] = mx THEN t[d] - 1 ELSE t[d]], c - occ, csave, cf, lmax, top, fuel - 1)
 Coarsen12(lv, c, cf, lmax) ==
     <<Reduce12(lv, c, c, cf, lmax, (lmax + cf.D - 1) - SumV(lv) = 0, 64), TRUE>>
-CoarsenVec(lv, c, cf, lmax) == IF cf.version = 0 THEN Coarsen0(lv, c, cf.lmin) ELSE Coarsen12(lv, c, cf, lmax)
+RECURSIVE Reduce3(_, _, _, _)
+(* version 3: round robin over the dimensions, one unit of coarsening per visit, an entry is lowered only above lmin *)
+Reduce3(t, c, dir, lmin) == IF c <= 0 THEN t
+                            ELSE Reduce3(IF t[dir] > lmin THEN [t EXCEPT ![dir] = @ - 1] ELSE t, c - 1, (dir % Len(t)) + 1, lmin)
+Coarsen3(lv, c, cf) == <<Reduce3(lv, c, 1, cf.lmin), TRUE>>
+CoarsenVec(lv, c, cf, lmax) == IF cf.version = 0 THEN Coarsen0(lv, c, cf.lmin)
+                               ELSE IF cf.version = 3 THEN Coarsen3(lv, c, cf) ELSE Coarsen12(lv, c, cf, lmax)
 (* is the component grid lv computed on an area with coarsening c?  version 0: only the first level vector  *)
 (* (in scheme order) among those with the same coarsened vector                                              *)
 Computed(lv, c, cf, lmax) ==
